@@ -1055,6 +1055,11 @@ class SVal:
                               '<=': lambda: va <= vb, 'in': lambda: va in vb}[op]())
             except Exception:
                 pass
+        if op == 'in' and b[0] in ('tuple', 'list') and 1 <= len(b[1]) <= 4 and not any(
+                isinstance(x, tuple) and x and x[0] in ('star', 'when', 'each', 'acc') for x in b[1]) \
+                and not all(x[0] in ('global', 'const') for x in b[1]):
+            # membership in a display of values (not of constants: those stay sets) is the disjunction of the equalities
+            return mk_bool('or', tuple(self.mk_cmp('==', x, a) for x in b[1]))
         if op == '==' and a[0] == 'tuple' and b[0] == 'tuple' and len(a[1]) == len(b[1]) and a[1] \
                 and not any(isinstance(x, tuple) and x and x[0] in ('star', 'when', 'each', 'acc') for x in a[1] + b[1]):
             # equality of two displays of one length is the equality of their elements
